@@ -411,39 +411,7 @@ func runC19(r *Report, tier string) {
 	for _, D := range decs {
 		checkReceiverAssigned(r, "R19.2", D)
 	}
-	// R19.2 decode destinations in the decoder family + bucket decoders
-	scope := map[*ssa.Function]bool{}
-	for _, D := range decs {
-		for f := range P.reachable([]*ssa.Function{D}) {
-			scope[f] = true
-		}
-	}
-	var sfs []*ssa.Function
-	for f := range scope {
-		sfs = append(sfs, f)
-	}
-	sort.Slice(sfs, func(i, j int) bool { return sfs[i].String() < sfs[j].String() })
-	nd := 0
-	isDec := map[*ssa.Function]bool{}
-	for _, D := range decs {
-		isDec[D] = true
-	}
-	for _, f := range sfs {
-		for _, ci := range callsIn(f, nil) {
-			c := ci.Common()
-			if !(c.IsInvoke() && c.Method.Name() == "Unmarshal" && isCBORMode(c.Value.Type()) && len(c.Args) == 2) {
-				continue
-			}
-			nd++
-			r.sites++
-			dst := c.Args[1]
-			dt := P.terms.of(dst)
-			o := r.ob("R19.2", fmt.Sprintf("%s:decode-into:%s#%d", shortFn(f), truncate(dt.String(), 60), nd), f, ci, "decode destination is fresh, self-overwriting or the bstr/nil tail call")
-			ok, why := P.freshDestination(f, ci, dst, isDec, 0)
-			o.check(ok, why, why)
-		}
-	}
-	r.floorSoft("R19.2", nd, 10, "mode Unmarshal sites on decode paths")
+	checkDecodeDestinations(r, "R19.2")
 
 	checkInputNotRetained(r, "R19.3")
 	checkEncoderOutputFresh(r, "R19.4", "")
@@ -638,4 +606,44 @@ func checkEncoderOutputFresh(r *Report, rule, only string) {
 	} else {
 		r.floor(rule, n4, 1, "MarshalCBOR success exits of "+only)
 	}
+}
+
+// checkDecodeDestinations (R19.2, second half; shared with C07: a message
+// decoded earlier keeps the bytes it captured when another one is decoded).
+func checkDecodeDestinations(r *Report, rule string) {
+	P := r.P
+	decs := P.c19Decoders()
+	// R19.2 decode destinations in the decoder family + bucket decoders
+	scope := map[*ssa.Function]bool{}
+	for _, D := range decs {
+		for f := range P.reachable([]*ssa.Function{D}) {
+			scope[f] = true
+		}
+	}
+	var sfs []*ssa.Function
+	for f := range scope {
+		sfs = append(sfs, f)
+	}
+	sort.Slice(sfs, func(i, j int) bool { return sfs[i].String() < sfs[j].String() })
+	nd := 0
+	isDec := map[*ssa.Function]bool{}
+	for _, D := range decs {
+		isDec[D] = true
+	}
+	for _, f := range sfs {
+		for _, ci := range callsIn(f, nil) {
+			c := ci.Common()
+			if !(c.IsInvoke() && c.Method.Name() == "Unmarshal" && isCBORMode(c.Value.Type()) && len(c.Args) == 2) {
+				continue
+			}
+			nd++
+			r.sites++
+			dst := c.Args[1]
+			dt := P.terms.of(dst)
+			o := r.ob(rule, fmt.Sprintf("%s:decode-into:%s#%d", shortFn(f), truncate(dt.String(), 60), nd), f, ci, "decode destination is fresh, self-overwriting or the bstr/nil tail call")
+			ok, why := P.freshDestination(f, ci, dst, isDec, 0)
+			o.check(ok, why, why)
+		}
+	}
+	r.floorSoft(rule, nd, 10, "mode Unmarshal sites on decode paths")
 }
